@@ -110,11 +110,11 @@ def run(ctx):
     for t in traces:
         v = mon1['verdicts'][t['tid']]
         counts = v[3] if isinstance(v[3], list) else [v[3][k] for k in sorted(v[3])]
-        recs.append({'tid': t['tid'], 'rkind': 'settings', 'sel': t['sel'], 'valid_counts': counts, 's': t['s'], 'limit': limits[t['tid']], 'eager_max': eagers[t['tid']]})
+        recs.append({'tid': t['tid'], 'rkind': 'settings', 'sel': t['sel'], 'valid_counts': counts, 's': t['s'], 'limit': limits[t['tid']], 'eager_max': eagers[t['tid']] or 0})
         bad = [c for c in v[2] if c[0].startswith('C10.') and c[0] != 'C10.variable_with_one_value']
         if bad:
             coding_fails.append({'tid': t['tid'], 'fails': [['C12.selected_coding_not_working:' + c[0], c[1]] for c in bad[:5]], 's': t['s'],
-                                 'enc': layer_coding.enc_of(t, bad[0][1], bad[0][0]), 'limit': limits[t['tid']], 'eager_max': eagers[t['tid']],
+                                 'enc': layer_coding.enc_of(t, bad[0][1], bad[0][0]), 'limit': limits[t['tid']], 'eager_max': eagers[t['tid']] or 0,
                                  'selected': sorted({s['desc']['encoder'] for s in t['sel']})})
     for r in keyrecs:
         r['rkind'] = 'keypair'
